@@ -350,6 +350,17 @@ V("c13-checkpoint-after-create-database", A, "C13", "C13.g",
 V("c19-lock-only-with-create-database", A, "C19", "C19.a",
   ("instance", "        with self._connect_lock:", "        import contextlib\n        with (self._connect_lock if self.create_database_on_connect else contextlib.nullcontext()):"))
 
+V("c10-drop-table-cascade-too", A, "C10", "C10.d",
+  ("transforms", '        or kind.upper() != "SCHEMA"\n', '        or kind.upper() not in ("SCHEMA", "TABLE")\n'))
+V("c10-values-columns-zero-based", A, "C10", "C10.d",
+  ("transforms", 'columns = [exp.Identifier(this=f"COLUMN{i + 1}", quoted=True) for i in range(num_columns)]', 'columns = [exp.Identifier(this=f"COLUMN{i}", quoted=True) for i in range(num_columns)]'))
+V("c10-cluster-by-any-action", A, "C10", "C10.d",
+  ("transforms", "        and len(actions) == 1\n        and (isinstance(actions[0], exp.Cluster))", "        and any(isinstance(a, exp.Cluster) for a in actions)"))
+V("c10-tag-any-alter-set", A, "C10", "C10.d",
+  ("transforms", '            if isinstance(a, exp.AlterSet) and a.args.get("tag"):', "            if isinstance(a, exp.AlterSet):"))
+V("c10-neutral-drop-kind-no-upper", N, ["C10", "C02"], None,
+  ("transforms", '        or kind.upper() != "SCHEMA"\n', '        or kind != "SCHEMA"\n'))
+
 # ---------------------------------------------------------------- C01
 V("c01-float-stays-float", A, "C01", "C01.a", ("transforms", '        expression.args["this"] = exp.DataType.Type.DOUBLE\n', '        expression.args["this"] = exp.DataType.Type.FLOAT\n'))
 V("c01-drop-float-stage", A, "C01", "C01.a", ("cursor", "            .transform(transforms.float_to_double)\n", ""))
